@@ -250,6 +250,7 @@ const (
 	backquoteMarker  = marker('b')
 	commaMarker      = marker(',')
 	commaAtMarker    = marker('@')
+	dotMarker        = marker('.')
 )
 
 var (
@@ -853,6 +854,16 @@ func (r *reader) inBackquote() bool {
 	return false
 }
 
+// inList returns true if the next object is an element of a list and not the
+// argument of a reader macro such as quote.
+func (r *reader) inList() bool {
+	if len(r.starts) == 0 || len(r.stack) == 0 {
+		return false
+	}
+	_, isMarker := r.stack[len(r.stack)-1].(marker)
+	return !isMarker
+}
+
 func (r *reader) raise(format string, args ...any) {
 	f := make([]byte, 0, len(format)+9)
 	f = append(f, format...)
@@ -877,6 +888,15 @@ func (r *reader) closeList() {
 	size := len(r.stack) - start - 1
 	list := make(List, size)
 	copy(list, r.stack[start+1:])
+	// A lone dot token is only special in the last but one place of a
+	// list, anywhere else it is the symbol it spells.
+	dotted := false
+	for i, v := range list {
+		if v == dotMarker {
+			list[i] = Symbol(".")
+			dotted = i == len(list)-2
+		}
+	}
 	// TBD does the stack need to be cleared (set to nil) before shrinking?
 	r.stack = r.stack[:start+1]
 	var obj Object
@@ -889,7 +909,7 @@ func (r *reader) closeList() {
 	case Complex:
 		obj = newComplex(list)
 	default:
-		if 3 <= len(list) && list[len(list)-2] == Symbol(".") {
+		if 3 <= len(list) && dotted {
 			if list[len(list)-1] == nil {
 				list[len(list)-2] = nil
 			} else {
@@ -952,6 +972,9 @@ func (r *reader) pushToken(src []byte) {
 	case 0 < len(r.stack) && r.stack[len(r.stack)-1] == sharpQuoteMarker:
 		// A function name is never a number.
 		r.push(Symbol(token))
+	case size == 1 && token[0] == '.' && r.inList():
+		// The dot of a dotted pair, unlike the symbol |.|.
+		r.push(dotMarker)
 	default:
 		r.push(r.resolveToken(token))
 	}
